@@ -515,6 +515,8 @@ func runC11(c *ev.Ctx) {
 		c11Cfg{name: "one write, multi-byte and multi-character keys", segs: []string{"." + e9, ".ab", "#0", "#1", "#2"}, maxSegs: 3, depth: 1, values: []vref{{0, 1}, {3, 0}, {5, 0}}, badUnset: bad[:4], startNodes: 4, startDepth: 3, keys: []string{e9, "ab"}},
 		c11Cfg{name: "one write, keys that differ only in leading/trailing white space", segs: []string{".a", ".a ", ". a", ".a\t", "#0", "#1"}, maxSegs: 2, depth: 1, values: []vref{{0, 1}, {3, 0}}, badUnset: []string{".a\n", " .a", ".a .b "}, startNodes: 3, startDepth: 3, keys: []string{"a", "a ", " a"}})
 	cfgs = append(cfgs,
+		c11Cfg{name: "one write, all-digit keys next to list indices (a path whose last separator does not fit the container it reaches must leave the tree alone)", segs: []string{".a", ".0", ".1", "#0", "#1"}, maxSegs: 3, depth: 1, values: []vref{{0, 1}}, startNodes: 4, startDepth: 3, keys: []string{"a", "0", "1"}})
+	cfgs = append(cfgs,
 		c11Cfg{name: "one write, trees that also hold keys containing a separator (a.b, a#0: legal entries no path can address, they must stay untouched)", segs: []string{".a", ".b", "#0", "#1"}, maxSegs: 3, depth: 1, values: []vref{{0, 1}, {3, 0}}, startNodes: 4, startDepth: 3, keys: []string{"a", "a.b", "a#0"}})
 	cfgs = append(cfgs,
 		c11Cfg{name: "one write, lists whose equal elements share one field object (NewListOf runs) or are SubList/Concat results", segs: []string{".a", "#0", "#1", "#2", "#4"}, maxSegs: 2, depth: 1, values: []vref{{0, 1}, {0, 2}, {3, 0}}, startNodes: 4, startDepth: 3, routes: []int{9, 2, 3}})
